@@ -789,6 +789,7 @@ func ruleS6(r *Run) {
 		}
 		payload := types.ExprString(cp.Args[1])
 		guarded := false
+		headerShort := ""
 		ast.Inspect(fd.Body, func(n ast.Node) bool {
 			ifs, ok := n.(*ast.IfStmt)
 			if !ok || ifs.Pos() > cp.Pos() {
@@ -808,9 +809,32 @@ func ruleS6(r *Run) {
 			})
 			if mPayload && mBuf {
 				guarded = true
+				// the payload is copied BEHIND a header of k bytes (copy(buffer[k:], payload)): the test has to leave room for it
+				if k, ok := intConst(info, ast.Unparen(cp.Args[0]).(*ast.SliceExpr).Low); ok && k > 0 {
+					room := int64(0)
+					ast.Inspect(ifs.Cond, func(m ast.Node) bool {
+						if b, ok := m.(*ast.BinaryExpr); ok && (b.Op == token.SUB || b.Op == token.ADD) {
+							if c, ok := intConst(info, b.Y); ok {
+								if lc, ok := ast.Unparen(b.X).(*ast.CallExpr); ok && IsBuiltin(info, lc, "len") {
+									if (b.Op == token.SUB && identObj(info, lc.Args[0]) == bufObj) || (b.Op == token.ADD && types.ExprString(lc.Args[0]) == payload) {
+										room = c
+									}
+								}
+							}
+						}
+						return true
+					})
+					if room < k {
+						headerShort = fmt.Sprintf("the test `%s` leaves %d bytes for a header of %d", types.ExprString(ifs.Cond), room, k)
+					}
+				}
 			}
 			return true
 		})
+		if guarded && headerShort != "" {
+			r.Viol(key, cp.Pos(), headerShort+": a payload within the last bytes below the buffer size passes the test, copy truncates it silently and the datagram goes out shorter than its header declares - the receiver takes that for a broken connection and fails every pending call")
+			continue
+		}
 		r.Check(guarded, key, cp.Pos(), "len(payload) compared with len(buffer) before the copy", fmt.Sprintf("%s is copied into the fixed datagram buffer without a preceding check of len(%s) against the buffer: copy truncates silently (or the slice of the buffer panics), so a message is sent shorter than its header declares", payload, payload))
 	}
 }
